@@ -100,30 +100,7 @@ def run(repo, chk):
         for dd, e, n in rel:
             atoms = f.guard_atoms_x(n)
             chk.ob("R4", f"{spec['function']}: {dd}/{e} key released only after the comparison {g['contains']} succeeded", bool(Fn.find_guards(atoms, g["op"], g["holds"], g["contains"])), f"path condition {atoms}", f.loc(n))
-    for spec in ref["transition_after"]:
-        f = Fn(repo, T.CTX + spec["function"])
-        sets = [c for c in f.calls(name="self._set_state")] + [c for c in f.calls() if call_name(c) in spec.get("or_calls", [])]
-        if not sets:
-            chk.ob("R4", f"{spec['function']}: transition present", False, "no _set_state in handler", f.loc(f.node))
-        for c in sets:
-            if "after_failing" in spec:
-                g = spec["after_failing"]
-                atoms = f.guard_atoms_x(c)
-                chk.ob("R4", f"{spec['function']}: `{norm(c)[:60]}` only after the comparison {g['contains']} succeeded", bool(Fn.find_guards(atoms, g["op"], g["holds"], g["contains"])), f"path condition {atoms}", f.loc(c))
-            for callee in spec.get("after_calls", []):
-                cs = f.calls(name=callee["name"])
-                if not cs:
-                    chk.ob("R4", f"{spec['function']}: calls {callee['name']}", False, "verification call vanished", f.loc(f.node))
-                    continue
-                for v in cs:
-                    ok = f.before(v, c)
-                    if not ok and "unless" in callee:
-                        # the call may be skipped only under the stated configuration guard
-                        u = callee["unless"]
-                        g = [(t, p, st) for t, p, st in f.guards(v) if Fn.find_guards(flatten_cond(t, p), u["op"], u["holds"], u["contains"])]
-                        others = [x for x in f.guards(v) if x not in g]
-                        ok = bool(g) and not others and all(f.cfg.dominates(f.cfg.done[st], f.cfg.node_of(c)) for t, p, st in g)
-                    chk.ob("R4", f"{spec['function']}: {callee['name']} completes before `{norm(c)[:50]}`", ok, "transition reachable without the verification call having returned normally", f.loc(c))
+    transitions_after(repo, chk, ref, "R4")
     # the server's expected Finished value has a single, transcript-derived source
     evd = []
     for q in m.functions:
@@ -140,6 +117,34 @@ def run(repo, chk):
     uk = Fn(repo, "quic.connection:QuicConnection._update_traffic_key")
     setups = uk.calls(suffix="setup")
     chk.ob("R4", "connection._update_traffic_key installs keys through crypto.{send,recv}.setup", len(setups) >= 2, f"setup calls: {[norm(c.func) for c in setups]}", uk.loc(uk.node))
+
+
+def transitions_after(repo, chk, ref, R4="R4"):
+    """every state transition of an authenticating handler is dominated by its verification (shared with C03-R1)"""
+    for spec in ref["transition_after"]:
+        f = Fn(repo, T.CTX + spec["function"])
+        sets = [c for c in f.calls(name="self._set_state")] + [c for c in f.calls() if call_name(c) in spec.get("or_calls", [])]
+        if not sets:
+            chk.ob(R4, f"{spec['function']}: transition present", False, "no _set_state in handler", f.loc(f.node))
+        for c in sets:
+            if "after_failing" in spec:
+                g = spec["after_failing"]
+                atoms = f.guard_atoms_x(c)
+                chk.ob(R4, f"{spec['function']}: `{norm(c)[:60]}` only after the comparison {g['contains']} succeeded", bool(Fn.find_guards(atoms, g["op"], g["holds"], g["contains"])), f"path condition {atoms}", f.loc(c))
+            for callee in spec.get("after_calls", []):
+                cs = f.calls(name=callee["name"])
+                if not cs:
+                    chk.ob(R4, f"{spec['function']}: calls {callee['name']}", False, "verification call vanished", f.loc(f.node))
+                    continue
+                for v in cs:
+                    ok = f.before(v, c)
+                    if not ok and "unless" in callee:
+                        # the call may be skipped only under the stated configuration guard
+                        u = callee["unless"]
+                        g = [(t, p, st) for t, p, st in f.guards(v) if Fn.find_guards(flatten_cond(t, p), u["op"], u["holds"], u["contains"])]
+                        others = [x for x in f.guards(v) if x not in g]
+                        ok = bool(g) and not others and all(f.cfg.dominates(f.cfg.done[st], f.cfg.node_of(c)) for t, p, st in g)
+                    chk.ob(R4, f"{spec['function']}: {callee['name']} completes before `{norm(c)[:50]}`", ok, "transition reachable without the verification call having returned normally", f.loc(c))
 
 
 def transitions_and_typestate(repo, chk, d, ref, R2="R2", R3="R3"):
